@@ -71,20 +71,26 @@ func ComposeRequest(msg *dns.Msg, domain string) (data []byte) {
 	if l := len(msg.Question); l > 1 {
 		log.Debugf("Multi-query request, len=%q", l)
 		questions := append([]dns.Question{}, msg.Question...)
+		order := func(name string) int {
+			if len(name) < 2 {
+				return 0
+			}
+			return enc.Base32CharToInt(name[0]) + enc.Base32CharToInt(name[1])*32
+		}
 		sort.Slice(questions, func(i, j int) bool {
-			i1 := enc.Base32CharToInt(questions[i].Name[0])
-			i2 := enc.Base32CharToInt(questions[i].Name[1])
-			j1 := enc.Base32CharToInt(questions[j].Name[0])
-			j2 := enc.Base32CharToInt(questions[j].Name[1])
-			return i1+i2*32 < j1+j2*32
+			return order(questions[i].Name) < order(questions[j].Name)
 		})
 		for _, v := range questions {
+			if len(v.Name) < 2 {
+				// too short to carry an order tag
+				continue
+			}
 			// remove first two characters
 			s := []byte(v.Name[2:])
 			s = StripDomain(s, domain)
 			data = append(data, s...)
 		}
-	} else {
+	} else if l == 1 {
 		s := []byte(msg.Question[0].Name)
 		s = StripDomain(s, domain)
 		data = append(data, s...)
